@@ -117,6 +117,9 @@ type c18Scenario struct {
 	// stream); head = the request method is HEAD (no body whatever the script says)
 	framing int
 	head    bool
+	// use the package-level wrapper (req.Get, req.MustPost, …: the default client) when the scenario
+	// configures nothing at request level
+	pkg bool
 }
 
 var c18ErrGetBody = errors.New("c18 GetBody failure")
@@ -945,7 +948,7 @@ func c18Run(sc *c18Scenario) *c18Obs {
 	// when the scenario configures nothing at request level
 	usePkg := (sc.entry == 'v' || sc.entry == 'm') && !sc.sT && !sc.eT && len(sc.reqResp) == 0 && sc.maxRetries == 0 &&
 		!sc.save && !sc.unbounded && len(sc.ctxDone) == 0 &&
-		sc.conds == nil && !needBody && !sc.unreplayable && !sc.builderErr && !reqLevelNoAutoRead && sc.verb%4 == 3
+		sc.conds == nil && !needBody && !sc.unreplayable && !sc.builderErr && !reqLevelNoAutoRead && sc.pkg
 	if usePkg {
 		req = nil
 		old := DefaultClient()
@@ -1127,6 +1130,9 @@ func (o *c18Obs) oracle(sc *c18Scenario) string {
 	if o.mustPanicked {
 		if o.mustErr == nil {
 			return "Must* panicked without an error"
+		}
+		if strings.HasPrefix(c18PipeErrName(o.mustErr), "other(") {
+			return "Must* panicked with " + c18PipeErrName(o.mustErr) + ", not with the error the non-Must form returns"
 		}
 		if want := map[bool]int{true: 1, false: 0}[sc.hook]; o.hooks != want {
 			return fmt.Sprintf("error hook ran %d times for a failing Must* call, want %d", o.hooks, want)
@@ -1610,6 +1616,7 @@ func c18Finish(r *rand.Rand, sc *c18Scenario, pXform, pClone int) *c18Scenario {
 	if r.Intn(pClone) == 0 {
 		sc.path, sc.split = 1+r.Intn(3), r.Intn(1<<20)
 	}
+	sc.pkg = r.Intn(3) == 0
 	return sc
 }
 
@@ -1783,6 +1790,11 @@ func c18ModelBuckets(hist *c18Hist, sc *c18Scenario, ans string) {
 	}
 	hist.Count("entry=" + string(sc.entry))
 	hist.Count("clonepath=" + strconv.Itoa(sc.path))
+	if sc.pkg && (sc.entry == 'v' || sc.entry == 'm') && !sc.sT && !sc.eT && len(sc.reqResp) == 0 && sc.maxRetries == 0 && !sc.save &&
+		!sc.unbounded && len(sc.ctxDone) == 0 && sc.conds == nil && len(sc.getBody) == 0 && !sc.unreplayable && !sc.builderErr &&
+		(sc.autoRead || sc.verb%2 == 0) {
+		hist.Count("pkg-level:" + map[byte]string{'v': "", 'm': "Must"}[sc.entry] + c18Verbs[sc.verb%len(c18Verbs)])
+	}
 	if sc.save {
 		hist.Count("save")
 	}
@@ -1970,13 +1982,25 @@ func TestVerif_C18_call(t *testing.T) {
 			}
 			c18Facts(h, sc.checker)
 			sc.transport = []c18TOut{{fail: -1, h: h}}
-			scs = append(scs, c18Finish(r, sc, 4, 4))
+			c18Finish(r, sc, 4, 4)
+			if k == 0 {
+				// one case per status through a package-level wrapper (req.Get … req.MustPut: the default
+				// client), which needs a scenario that configures nothing at request level
+				sc.sT, sc.eT, sc.entry, sc.pkg, sc.save, sc.outFails = false, false, "vm"[r.Intn(2)], true, false, nil
+				if !sc.autoRead && sc.verb%2 == 1 {
+					sc.autoRead = true
+				}
+			}
+			scs = append(scs, sc)
 		}
 	}
 	c18RunLane(t, s, hist, scs)
 	s.Finish()
 	hist.need(t, "bound=success", "bound=errorR", "bound=errorC", "out=err:unm", "out=err:read", "out=mustpanic", "out=ok",
-		"final=S", "final=E", "final=U", "final=204", "ct=json", "ct=xml", "ct=other", "ct=none", "entry=d", "entry=s", "entry=v", "entry=m", "hook=1")
+		"final=S", "final=E", "final=U", "final=204", "ct=json", "ct=xml", "ct=other", "ct=none", "entry=d", "entry=s", "entry=v", "entry=m", "hook=1",
+		"pkg-level:Get", "pkg-level:Post", "pkg-level:Put", "pkg-level:Patch", "pkg-level:Delete", "pkg-level:Options", "pkg-level:Head",
+		"pkg-level:MustGet", "pkg-level:MustPost", "pkg-level:MustPut", "pkg-level:MustPatch", "pkg-level:MustDelete", "pkg-level:MustOptions",
+		"pkg-level:MustHead", "save", "out=err:output", "xform-fails+err", "clonepath=1", "clonepath=2", "clonepath=3")
 }
 
 // TestVerif_C18_pipe: generated middleware stacks.
